@@ -37,5 +37,5 @@ MANIFEST = dict(
                 "the stack-machine model of eval.rs returns exactly the SMT-LIB value, canonical, with provided inner values short-circuiting. "
                 "Tie to /repo: the extracted machine and the real eval_expr run on the same generated (expression, assignment, cut) cases on every run."),
     level_note=("Trusted: Coq kernel; hand-written model tied only by differential execution (generator-bounded); baa specified by Spec/BV.v, "
-                "not verified. Two baa defects are recorded as known findings, one patronus defect was fixed."),
+                "not verified. Two baa defects are recorded as known findings, one patronus defect was fixed. Streams: main (widths up to 129) and wide (three- to six-word values, whole-word shift amounts). Extraction and OCaml glue are cross-checked against vm_compute inside Coq on a sample of every run (corr_C06_kernel)."),
 )
